@@ -66,6 +66,7 @@ def printer_tasks(tier):
         ts.append(Task('tokens.%s' % m, 'contracts.tokens:task_method', method=m))
     ts.append(Task('tokens.callsites', 'contracts.tokens:task_callsites'))
     ts.append(Task('tokens.delimiter', 'contracts.tokens:task_delimiter'))
+    ts.append(Task('compare_ast.constants', 'contracts.folding:task_compare_ast_constants'))
     ts.append(Task('printer.FormattedValue.is_curly', 'contracts.printer:task_is_curly'))
     ts.append(Task('standin.enum_print.depth2', 'contracts.printer:task_standin', standin='enum_print depth 2', script='enum_print.py',
                    args=['--depth', '2'], bound='every (slot, child kind) pair of spec/astlib.py, nesting depth 2, strict re-parse'))
@@ -168,21 +169,22 @@ def sink_tasks(tier):
     return ts
 
 
-prop('C12', 'Minifying never runs code taken from the input', 'proof', sink_tasks, ['C12/'], replay='props.replay_printer:replay_sinks',
+prop('C12', 'Minifying never runs code taken from the input', 'other', sink_tasks, ['C12/'], replay='props.replay_printer:replay_sinks',
      trusted=['string-literal lexer DFA (language reference 2.4.1), hand-written', 'ast.parse/compile do not execute code',
               'f_string.Str/Bytes receive the four-quote list and pep701=True (checked at the construction site)'],
      explanation='Sink inventory over every call in the package (a new eval/exec/open/getattr-by-computed-name site is a refuted obligation). '
                  'For each string sink the text handed to eval is proved to be complete string/bytes literal tokens only: the per-character '
                  'loops of MiniString.to_short/to_long and f_string.Str/Bytes._literals are analysed for one arbitrary iteration with a symbolic '
                  'character of any code point against the lexer DFA (loop invariant: the lexer is inside the literal). The arithmetic sink '
-                 'receives only the printed form of literal trees, which prints number/operator/True/False/None tokens only.')
+                 'receives only the printed form of literal trees, which prints number/operator/True/False/None tokens only. Level "other": the contracts are proved, but one '
+                 'open known finding lies outside them (KF-31: ast.parse of a bytes source imports the codec module named by the coding cookie of the input).')
 
 
 def transform_tasks(tier):
     ts = [Task('transforms.suite.%s' % k, 'contracts.transforms:task_suite_filter', kind=k, module=m) for k, m in
           (('RemovePass', 'remove_pass'), ('RemoveAsserts', 'remove_asserts'), ('RemoveLiteralStatements', 'remove_literal_statements'),
            ('RemoveDebug', 'remove_debug'))]
-    ts += [Task('transforms.can_remove', 'contracts.transforms:task_can_remove'), Task('transforms.remove_object', 'contracts.transforms:task_remove_object'),
+    ts += [Task('transforms.docstring_guard', 'contracts.transforms:task_docstring_guard'), Task('transforms.can_remove', 'contracts.transforms:task_can_remove'), Task('transforms.remove_object', 'contracts.transforms:task_remove_object'),
            Task('transforms.posargs', 'contracts.transforms:task_posargs'), Task('transforms.return_none', 'contracts.transforms:task_return_none'),
            Task('transforms.return_none_fn', 'contracts.transforms:task_return_none_functiondef'), Task('transforms.rls', 'contracts.transforms:task_rls_module'),
            Task('transforms.combine_import', 'contracts.transforms:task_combine_imports', which='import'),
@@ -196,7 +198,7 @@ def transform_tasks(tier):
     return ts
 
 
-prop('C05', 'Each option performs only its documented rewrite, only where it is valid', 'proof', transform_tasks, ['C05/', 'C01/minify/'],
+prop('C05', 'Each option performs only its documented rewrite, only where it is valid', 'other', transform_tasks, ['C05/', 'C01/minify/'],
      replay='props.replay_transforms:replay_transforms',
      trusted=['recursive visit by contract (structural induction over the tree)', 'tree-level contracts instead of compiled-code bisimulation',
               'ast.walk / iter_child_nodes / iter_fields enumerate the tree (external)'],
@@ -206,7 +208,9 @@ prop('C05', 'Each option performs only its documented rewrite, only where it is 
                  'return None, object base, exception brackets (builtin, not redefined, whitelisted, no arguments, directly under raise), annotations '
                  '(per option, never in dataclass/NamedTuple/TypedDict), posargs; and minify() runs each stage exactly under its own option. "The class" of an annotated assignment is the '
                  'namespace of its statement (a field may sit in a block of the class body; KF-18, repaired in 9ef57d1). The proof is at tree level: '
-                 'equality with the -O compiled code for asserts/__debug__ is argued from the documented rewrite, not from bytecode.')
+                 'equality with the -O compiled code for asserts/__debug__ is argued from the documented rewrite, not from bytecode. Level "other": the per-method '
+                 'contracts are proved, but two open known findings show where the documented tree-level rewrite itself falls short of the property sentence (KF-32: scope effects '
+                 'of a removed assert / __debug__ block under -O; KF-33: dataclass / NamedTuple recognised by spelling only).')
 
 
 def sweep(only, tier, label, extra=()):
@@ -219,7 +223,7 @@ def sweep(only, tier, label, extra=()):
 def renamer_tasks(tier):
     ts = [Task('scopes.add_parent', 'contracts.scopes:task_add_parent'), Task('scopes.arguments', 'contracts.scopes:task_arguments'),
           Task('scopes.namedexpr', 'contracts.scopes:task_namedexpr')]
-    for t in ('arg_rename_in_place', 'namebinding_init', 'binder_get_binding', 'name_binder_visitors', 'resolve_get_binding', 'resolve_names', 'namebinding_rename', 'name_assigner', 'reservation_scope', 'allow_rename',
+    for t in ('arg_rename_in_place', 'namebinding_init', 'binder_get_binding', 'name_binder_visitors', 'has_private_names', 'resolve_get_binding', 'resolve_names', 'namebinding_rename', 'name_assigner', 'reservation_scope', 'allow_rename',
               'taint_alias'):
         ts.append(Task('renamer.' + t, 'contracts.renamer:task_' + t))
     for t in ('hoist_visitors', 'hoisted_value', 'insert', 'placement', 'cost_model'):
@@ -246,7 +250,7 @@ prop('C03', 'Renaming preserves which binding every name refers to', 'other', la
                  'module-level binding of the same name (class-body lookup goes class -> globals). (e) reservation_scope: inductive per-iteration '
                  'contract of the namespace-chain walk (every namespace between a reference and the binding is in the scope, whatever its class); '
                  'reserve_name and available_name against the same scope. The proof is relative to the hand-written scoping table (trusted); its '
-                 'conformance with CPython symtable is only sampled by the bounded sweep. Level "other": one open known finding found by a sub-agent (KF-25 first parameter of an old-style static method).')
+                 'conformance with CPython symtable is only sampled by the bounded sweep. Level "other": open known findings found by sub-agents (KF-25 first parameter of an old-style static method, KF-26 PEP 695 type parameters bound in the enclosing scope - the scoping table follows the code there -, KF-27 parameter alias lifetime).')
 prop('C04', 'Externally visible names are never changed', 'proof', lambda tier: renamer_tasks(tier) + [sweep('interface', tier, 'C04')],
      ['C04/'], replay='props.replay_rename:replay_rename', trusted=REN_TRUST,
      explanation='arg_rename_in_place is true exactly for self/cls-like first parameters of plain or @classmethod methods, star parameters and positional-only '
@@ -278,7 +282,7 @@ prop('C17', 'Turning a size optimisation on never makes the output longer', 'oth
      explanation='Second clause only ("names changed and literals hoisted only where the result is smaller"): for every reference kind and for mixed reference '
                  'lists, should_rename(new) implies that the exact byte change (per-reference deltas + the re-binding statement) is <= 0 (linear integer arithmetic '
                  'over symbolic name lengths); hoisting: should_rename implies alias definition + uses <= literal uses; folding keeps only strictly shorter text. '
-                 'The first clause (a corpus of real-world modules) is not expressible as a contract and is not claimed; one open known finding (KF-19).')
+                 'The first clause (a corpus of real-world modules) is not expressible as a contract and is not claimed; open known findings where the cost model leaves out bytes the printer writes: KF-19 (re-binding before a compound statement), KF-23 (space after a keyword), KF-29 (a tie rename steals the name of an import), KF-30 (indentation of a hoisted assignment).')
 
 
 prop('C11', 'Output depends only on source, options and interpreter version', 'proof',
@@ -331,7 +335,7 @@ prop('C01', 'Minified module behaves exactly like the original (safe options)', 
      explanation='Conditional proof: (1) the syntactic stage contracts of every transform, the renamer, the hoister, the folder and the printer are re-discharged; '
                  '(2) minify() is proved to run each stage under its own option, in dependency order, on the one parsed module; (3) a z3 lemma composes the stage '
                  'equivalences for every subset of enabled stages. The semantic adequacy of each rewrite schema is an axiom; one side condition is not '
-                 'established by the code and is an open known finding (KF-15 effectful annotation); two others were repaired (posargs with **kwargs: 7a1a7a4; shadowed object base: 3bb1e82). The '
+                 'established by the code and is an open known finding (KF-15 effectful annotation); further open findings from the bug-hunting wave are witnessed by the sweep (KF-25, KF-26, KF-27); a string statement after a removed `pass` became the docstring (repaired in e235f6e); two others were repaired (posargs with **kwargs: 7a1a7a4; shadowed object base: 3bb1e82). The '
                  'behaviour oracle of the bounded sweep (run original and minified program) stands behind the axioms.')
 
 
